@@ -42,7 +42,7 @@ def run(chk: Check):
                 'for append or read (any number of times, several paths); plus the corpus and integer-cache-size '
                 'scenarios.  Non-trivial = contains a read of an old item after an addition in an append session, or a '
                 'read of an item evicted from the cache')
-    gen = [{'name': f'gen:{i}', 'ops': su.gen_history(chk.rng, 'C07')} for i in range(chk.n(150, 2500))]
+    gen = [{'name': f'gen:{i}', 'ops': su.gen_history(chk.rng, 'C07')} for i in range(chk.n(150, 2000))]
     su.run_property(chk, 'C07', PROPS, gen, nontrivial, scenarios=su.big_payload_scenarios(chk.rng, chk.n(3, 12)))
 
 
